@@ -54,6 +54,10 @@ def run(ctx):
             case.cmds, case.recipe = [{"k": "add", "regex": ".*", "operation": rng.choice(["*", "FULLY_CONNECTED"]), "cfg": cfg, "alg": "min_max_uniform_quantize"}], None
             case.desc = [("uniform on same-name tie", cfg["weight"]["bits"], cfg["cp"])]
         return case
+    try:
+        fp.blockwise_probe(ctx, drv, interp, 12 if ctx.tier == "quick" else 60)
+    except Exception as e:  # noqa: BLE001
+        ctx.fail(f"the BLOCKWISE probe could not run ({type(e).__name__}: {str(e)[:100]})", {}, "blockwise-probe-crash")
     # graph stage (instructions + performer on abstract parameter classes) AND the whole pipeline (bit-exact output, WF.modelOK /
     # skeleton evaluated on the model's own output, NF membership) are compared with the Lean model on every case
     fp.explore(ctx, drv, 600 if ctx.tier == "quick" else 4000, per_case, gen=gen, graph_corr=True, pipe_corr=True)
